@@ -116,11 +116,20 @@ def build_lib(kind="rel"):
     with Lock("build-" + kind):
         if os.path.exists(stamp):
             return bd
-        # drop builds of other tree states (disk)
+        # drop builds of older tree states (disk): keep the few most recently used ones, because several checks may run
+        # at the same time against different trees (VERIF_REPO worktrees); never drop one used in the last 30 minutes
         root = BUILD_ROOT
+        olds = []
         for d in os.listdir(root):
             p = os.path.join(root, d)
             if os.path.isdir(p) and d != repo_hash() and re.fullmatch(r"[0-9a-f]{16}", d):
+                try:
+                    olds.append((max(os.path.getmtime(p), max([os.path.getmtime(os.path.join(p, x)) for x in os.listdir(p)] or [0])), p))
+                except OSError:
+                    pass
+        olds.sort(reverse=True)
+        for mt, p in olds[int(os.environ.get("VERIF_KEEP_BUILDS", "5")):]:
+            if time.time() - mt > 1800:
                 shutil.rmtree(p, ignore_errors=True)
         shutil.rmtree(bd, ignore_errors=True)
         os.makedirs(bd)
@@ -218,7 +227,13 @@ def build_model(slice_):
         src = os.path.join(COQ, "model_%s.ml" % slice_)
         if not os.path.exists(src):
             raise BuildError("extraction did not produce model_%s.ml" % slice_)
-        parts = [src, os.path.join(OCAML, "helpers.ml"), os.path.join(OCAML, "run_%s.ml" % slice_)]
+        runf = os.path.join(OCAML, "run_%s.ml" % slice_)
+        # a run file may ask for shared OCaml files (placed after helpers.ml) with a first-line comment
+        #   (* VERIF_USES: tree_io.ml other.ml *)
+        with open(runf) as fh:
+            m = re.match(r"\s*\(\*\s*VERIF_USES:\s*([^*]*?)\s*\*\)", fh.readline())
+        uses = [os.path.join(OCAML, u) for u in m.group(1).split()] if m else []
+        parts = [src, os.path.join(OCAML, "helpers.ml")] + uses + [runf]
         txt = "\n".join(open(p).read() for p in parts)
         bdir = os.path.join(OCAML, "_b_" + slice_)
         os.makedirs(bdir, exist_ok=True)
